@@ -233,6 +233,11 @@ def reject_text(kind, state_vars, k):
     if kind == "var_badkey":
         # complete variable (atoms requested, components built), then an unknown keyword
         return ("colvar {\n  name rj%d\n  notAKeyword 1\n  distance {\n" % k + _grp("group1", [1, 2, 23]) + _grp("group2", [4, 24]) + "  }\n}\n", ["rj%d" % k])
+    if kind == "var_legacywall":
+        # old-style wall keywords (for which the module prepares a harmonicWalls bias to be defined after the variable), then
+        # a definition that fails: nothing of it may be left for a later configuration
+        return ("colvar {\n  name rj%d\n  lowerBoundary 1.0\n  upperBoundary 9.0\n  lowerWall 2.0\n  upperWall 8.0\n  lowerWallConstant 2.0\n  upperWallConstant 3.0\n"
+                "  notAKeyword 1\n  distance {\n" % k + _grp("group1", [1, 2, 23]) + _grp("group2", [4, 24]) + "  }\n}\n", ["rj%d" % k])
     if kind == "var_badvalue":
         return ("colvar {\n  name rj%d\n  width -1.0x\n  distance {\n" % k + _grp("group1", [5, 23]) + _grp("group2", [6]) + "  }\n}\n", ["rj%d" % k])
     if kind == "var_badcvc":
@@ -253,9 +258,9 @@ def reject_text(kind, state_vars, k):
     raise ValueError(kind)
 
 
-REJ_VAR = ["var_badkey", "var_badvalue", "var_badcvc", "var_badatom"]
+REJ_VAR = ["var_badkey", "var_badvalue", "var_badcvc", "var_badatom", "var_legacywall"]
 REJ_BIAS = ["bias_badkey", "bias_badvalue", "bias_nocv", "bias_deps"]
-REJ_ATOMS = {"var_badkey": [1, 2, 23, 4, 24], "var_badvalue": [5, 23, 6], "var_badcvc": [3, 24, 8, 1, 2], "var_badatom": [2, 23, 4]}
+REJ_ATOMS = {"var_badkey": [1, 2, 23, 4, 24], "var_legacywall": [1, 2, 23, 4, 24], "var_badvalue": [5, 23, 6], "var_badcvc": [3, 24, 8, 1, 2], "var_badatom": [2, 23, 4]}
 
 
 # ---------------------------------------------------------------------------------------------------
